@@ -209,6 +209,7 @@ def run(ctx):
     plans = [("format", {"MaxBatch": 2, "Ks": [0, 1, 2, 9, 14, 15, 16, 17, 18] if quick else list(range(0, 19)), "MaxDigits": 3}),
              ("parse", {"MaxBatch": 2, "Ks": [0], "MaxDigits": 3 if quick else 4}),
              ("optional", {"MaxBatch": 3, "Ks": [0], "MaxDigits": 2}),
+             ("longfloat", {"MaxBatch": 2, "Ks": [0], "MaxDigits": 1}),
              ("float", {"MaxBatch": 1 if quick else 2, "Ks": [0], "MaxDigits": 1})]
     if not quick:
         plans.append(("format", {"MaxBatch": 3, "Ks": [0, 2, 15, 18], "MaxDigits": 1}))
